@@ -1,6 +1,6 @@
 (* Dispatch.v — one entry point `run op arg` for every executable model and spec.
    Used identically by the extracted runner (coq/extract) and by `Eval vm_compute` re-evaluation. *)
-From Verif Require Import PyVal Rows Enc ComparableGen AsIndicesGen Order Sort SortSpec Dedup DedupSpec Basics SetOps SetSpec Joins Relational HashJoins.
+From Verif Require Import PyVal Rows Enc ComparableGen AsIndicesGen Order Sort SortSpec Dedup DedupSpec Basics SetOps SetSpec Joins Relational HashJoins Reductions GroupSpec.
 Open Scope Z_scope.
 
 Definition run_cmp (arg : val) : val :=
@@ -297,6 +297,108 @@ Definition run_lookup (arg : val) : val :=
   | _ => bad_input
   end.
 
+Definition dec_fn (v : val) : option Z := fn_id v.
+Definition dec_pairs (v : val) : option (list (val * val)) :=
+  match v with
+  | VSeq _ l => dec_all (fun x => match x with VSeq _ [a; b] => Some (a, b) | _ => None end) l
+  | _ => None
+  end.
+
+(* reduce: (opname, presorted, bs|None, table, args...) *)
+Definition run_reduce (arg : val) : val :=
+  match arg with
+  | VSeq _ (VStr opn :: pre :: bs :: t :: args) =>
+      match dec_bool pre, dec_opt dec_nat bs, dec_table t with
+      | Some pre', Some bs', Some t' =>
+          if zs_eqb opn "aggregate_simple" then
+            match args with
+            | [key; agg; value; field] =>
+                match dec_fn agg with
+                | Some f => enc_gen (simple_aggregate_model key f (dec_key value) field pre' bs' t')
+                | None => bad_input
+                end
+            | _ => bad_input
+            end
+          else if zs_eqb opn "aggregate_multi" then
+            match args with
+            | [key; aggs] => match dec_pairs aggs with
+                             | Some a => enc_gen (multi_aggregate_model key a pre' bs' t')
+                             | None => bad_input
+                             end
+            | _ => bad_input
+            end
+          else if zs_eqb opn "rowreduce" then
+            match args with
+            | [key; red; header] =>
+                match dec_fn red, dec_opt dec_row header with
+                | Some f, Some h => enc_gen (rowreduce_model key f h pre' bs' t')
+                | _, _ => bad_input
+                end
+            | _ => bad_input
+            end
+          else if zs_eqb opn "groupselect" then
+            match args with
+            | [which; key; value] =>
+                match dec_Z which with
+                | Some w => enc_gen (groupselect_model w key value pre' bs' t')
+                | None => bad_input
+                end
+            | _ => bad_input
+            end
+          else if zs_eqb opn "mergeduplicates" then
+            match args with
+            | [key; missing] => enc_gen (mergeduplicates_model key missing pre' bs' t')
+            | _ => bad_input
+            end
+          else if zs_eqb opn "fold" then
+            match args with
+            | [key; f; value] =>
+                match dec_fn f with
+                | Some fid => enc_gen (fold_model key fid (dec_key value) pre' bs' t')
+                | None => bad_input
+                end
+            | _ => bad_input
+            end
+          else if zs_eqb opn "valuecounts" then
+            match args with
+            | [VSeq _ fields; missing] => enc_gen (valuecounts_model fields missing t')
+            | _ => bad_input
+            end
+          else bad_input
+      | _, _, _ => bad_input
+      end
+  | _ => bad_input
+  end.
+
+(* group_spec: (kind, table, out, args...) *)
+Definition run_group_spec (arg : val) : val :=
+  match arg with
+  | VSeq _ (VStr kind :: t :: o :: args) =>
+      match dec_table t, dec_table o with
+      | Some t', Some o' =>
+          if zs_eqb kind "aggregate" then
+            match args with
+            | [key; agg; value] => match dec_fn agg with
+                                   | Some f => enc_optbool (aggregate_spec_holds key f (dec_key value) t' o')
+                                   | None => bad_input
+                                   end
+            | _ => bad_input
+            end
+          else if zs_eqb kind "counts_sum" then enc_optbool (counts_sum_holds t' o')
+          else if zs_eqb kind "groupselect" then
+            match args with
+            | [which; key; value] => match dec_Z which with
+                                     | Some w => enc_optbool (groupselect_spec_holds w key value t' o')
+                                     | None => bad_input
+                                     end
+            | _ => bad_input
+            end
+          else bad_input
+      | _, _ => bad_input
+      end
+  | _ => bad_input
+  end.
+
 Definition run (op : list Z) (arg : val) : val :=
   if zs_eqb op "cmp" then run_cmp arg
   else if zs_eqb op "sort" then run_sort arg
@@ -319,4 +421,6 @@ Definition run (op : list Z) (arg : val) : val :=
   else if zs_eqb op "hash_spec" then run_hash_spec arg
   else if zs_eqb op "same_table" then run_same_table arg
   else if zs_eqb op "lookup" then run_lookup arg
+  else if zs_eqb op "reduce" then run_reduce arg
+  else if zs_eqb op "group_spec" then run_group_spec arg
   else vtuple [vstr "!unknown-op"].
